@@ -1516,7 +1516,11 @@ func (o *ovsdbClient) Get(ctx context.Context, model model.Model) error {
 
 // Create implements the API interface's Create function
 func (o *ovsdbClient) Create(models ...model.Model) ([]ovsdb.Operation, error) {
-	return o.primaryDB().api.Create(models...)
+	primaryDB := o.primaryDB()
+	// the api is replaced together with the cache on (re)connection
+	primaryDB.cacheMutex.RLock()
+	defer primaryDB.cacheMutex.RUnlock()
+	return primaryDB.api.Create(models...)
 }
 
 // List implements the API interface's List function
@@ -1529,20 +1533,36 @@ func (o *ovsdbClient) List(ctx context.Context, result interface{}) error {
 
 // Where implements the API interface's Where function
 func (o *ovsdbClient) Where(models ...model.Model) ConditionalAPI {
-	return o.primaryDB().api.Where(models...)
+	primaryDB := o.primaryDB()
+	// the api is replaced together with the cache on (re)connection
+	primaryDB.cacheMutex.RLock()
+	defer primaryDB.cacheMutex.RUnlock()
+	return primaryDB.api.Where(models...)
 }
 
 // WhereAny implements the API interface's WhereAny function
 func (o *ovsdbClient) WhereAny(m model.Model, conditions ...model.Condition) ConditionalAPI {
-	return o.primaryDB().api.WhereAny(m, conditions...)
+	primaryDB := o.primaryDB()
+	// the api is replaced together with the cache on (re)connection
+	primaryDB.cacheMutex.RLock()
+	defer primaryDB.cacheMutex.RUnlock()
+	return primaryDB.api.WhereAny(m, conditions...)
 }
 
 // WhereAll implements the API interface's WhereAll function
 func (o *ovsdbClient) WhereAll(m model.Model, conditions ...model.Condition) ConditionalAPI {
-	return o.primaryDB().api.WhereAll(m, conditions...)
+	primaryDB := o.primaryDB()
+	// the api is replaced together with the cache on (re)connection
+	primaryDB.cacheMutex.RLock()
+	defer primaryDB.cacheMutex.RUnlock()
+	return primaryDB.api.WhereAll(m, conditions...)
 }
 
 // WhereCache implements the API interface's WhereCache function
 func (o *ovsdbClient) WhereCache(predicate interface{}) ConditionalAPI {
-	return o.primaryDB().api.WhereCache(predicate)
+	primaryDB := o.primaryDB()
+	// the api is replaced together with the cache on (re)connection
+	primaryDB.cacheMutex.RLock()
+	defer primaryDB.cacheMutex.RUnlock()
+	return primaryDB.api.WhereCache(predicate)
 }
